@@ -8,12 +8,12 @@
 package main
 
 import (
-	"time"
 	"context"
 	"errors"
 	"flag"
 	"fmt"
 	"os"
+	"time"
 
 	incr "github.com/wcharczuk/go-incr"
 	"github.com/wcharczuk/go-incr/incrutil"
@@ -168,7 +168,7 @@ func setFromUpdateHandler(par, rounds int, rng *hx.Rand) (int, string) {
 		midOn, lateOn, updOn := false, false, false
 		m := incr.Map(g, w, func(x int) int {
 			if midOn {
-				v.Set(mid)                                       // deferred
+				v.Set(mid)                                     // deferred
 				u.Update(func(x int) int { return x + mid%7 }) // deferred; the handler's Update must compose with it
 			}
 			return x
